@@ -10,6 +10,7 @@ Contains classes that define:
 import collections
 import logging
 import os
+import re
 from collections.abc import Callable, Iterable
 from copy import copy
 from dataclasses import dataclass, field
@@ -1989,39 +1990,25 @@ class ExpressionEvaluator(Parser):
         try:
             constant = self.match_type(NumericalConstant)
 
-            # Use prefix (if present) to determine base
-            base = 10
-            bases = {"0x": 16, "0X": 16, "0b": 2, "0B": 2}
-            try:
-                prefix = constant.token[0:2]
-                base = bases[prefix]
-                value = constant.token[2:]
-            except KeyError:
-                value = constant.token
+            # Split the literal into digits and an optional suffix.
+            # A leading 0x/0X or 0b/0B selects base 16 or 2.
+            match = re.fullmatch(
+                r"(0[xX][0-9a-fA-F]+|0[bB][01]+|[0-9]+)"
+                + r"([uU](?:ll|LL|[lL])?|(?:ll|LL|[lL])[uU]?)?",
+                constant.token,
+            )
+            if not match:
+                raise ValueError(f"Invalid integer constant: {constant.token}")
+            digits, suffix = match.groups()
+            if digits[:2] in ["0x", "0X"]:
+                int_value = int(digits[2:], 16)
+            elif digits[:2] in ["0b", "0B"]:
+                int_value = int(digits[2:], 2)
+            else:
+                int_value = int(digits, 10)
 
-            # Strip suffix (if present)
-            suffix = None
-            suffixes = [
-                "ull",
-                "ULL",
-                "ul",
-                "UL",
-                "ll",
-                "LL",
-                "u",
-                "U",
-                "l",
-                "L",
-            ]
-            for s in suffixes:
-                if value.endswith(s):
-                    suffix = s
-                    value = value[: -len(s)]
-                    break
-
-            # Convert to decimal and then to integer with correct sign
+            # Convert to integer with correct sign
             # Preprocessor always uses 64-bit arithmetic!
-            int_value = int(value, base)
             if suffix and "u" in suffix.lower():
                 return np.uint64(int_value)
             else:
